@@ -303,6 +303,23 @@ func generate() {
 	friendHistories(th)
 	threadHistories(th)
 	banrecHistories(th)
+	// the BM field: tokens that are, contain, or merely begin with the id of the 12-character account
+	for _, op := range opList {
+		for _, f := range []string{"V", "v", "Vx", "Vxx", "c", "c,V", "c,Vx", "Vx,c", "Vxx,p", "z,Vx", "e,V", "e", "c,p,k,s,V", "c,p,k,V", "z,c,p,k,V",
+			"c,p,Vx,V", "Vx,V", "s,Vxx"} {
+			execLine("reset bmfield " + op + " " + f)
+		}
+	}
+	execLine("reset bmfield newpost V,Q")
+	execLine("reset bmfield newpost c,c,c,c,V")
+	// bbs-level ids: the name part against the name of the bid's board (vsrc is a proper prefix of vsrc2)
+	for _, b := range []string{"vsrc2", "vsrc", "vtgt", "SYSOP"} {
+		for _, req := range []string{"vsrc2", "vsrc", "vsr", "v", "vsrc22", "vtgt", "VSRC2", "Vsrc", "SYSOP", "SYS", "-"} {
+			execLine("reset bbsid " + b + " " + hexs(req))
+		}
+	}
+	execLine("reset bbsid nosuch " + hexs("vsrc"))
+	execLine("reset bbsid vsrc " + hexs("a_b"))
 
 	// cool-down histories
 	for _, nu := range []int32{0, 30, 31, 1000, 1001, 2001, 4001} {
